@@ -22,9 +22,11 @@ THEOREMS = {
 }
 
 
-def _stress(c, binary, seed, rounds, focus, timeout=900):
+def _stress(c, binary, seed, rounds, focus, timeout=900, directed_ms=None):
+    if directed_ms is None:
+        directed_ms = 2500 if c.tier == "quick" else 15000      # directed scale-down scenario (done-early), focus c10 / c12
     try:
-        p = subprocess.run([binary, "c10-pool-stress", str(seed), str(rounds), focus], stdout=subprocess.PIPE,
+        p = subprocess.run([binary, "c10-pool-stress", str(seed), str(rounds), focus, str(directed_ms)], stdout=subprocess.PIPE,
                            stderr=subprocess.PIPE, text=True, timeout=timeout, env=GOENV)
         out = p.stdout.strip() or ("crash: " + p.stderr[-800:])
         err = p.stderr
@@ -189,7 +191,7 @@ def run(c, binary, labels, tier, focus):
         hits.append((c.seed, rounds, out, err))
     for (s, n, out, err) in hits[:2]:
         c.report("%s:pool:stress:%s" % (c.pid, _kind(out)), "OnDemandBlockTaskPool: " + out[:600],
-                 {"kind": "stress-run", "how": "h c10-pool-stress %d %d %s   (instrumented build, chaos mode)" % (s, n, focus),
+                 {"kind": "stress-run", "how": "h c10-pool-stress %d %d %s %d   (instrumented build, chaos mode)" % (s, n, focus, 2500 if c.tier == "quick" else 15000),
                   "result": out[:1500], "goroutine_dump_tail": err[-3000:]})
 
     # ---- 5. the correspondence is broken and the monitors found nothing: try the concrete schedules of the known
@@ -199,6 +201,9 @@ def run(c, binary, labels, tier, focus):
         for path, what in [(os.path.join(VERIF, "corpus", "pinned_pool_c10_workers_vanish.txt"),
                             "all workers leave a RUNNING pool (above-core exit + idle-timer exits) while accepted tasks are queued: "
                             "totalGo=0, state running, tasks never executed"),
+                           (os.path.join(VERIF, "corpus", "pinned_pool_c10_submit_wrap_depth.txt"),
+                            "Submit wraps the task once per round of its spin loop: after three rounds the task runs through four nested "
+                            "taskWrapper.Run activations (unbounded; a long wait overflows the stack when the task runs)"),
                            (os.path.join(VERIF, "corpus", "pinned_pool_c12_shutdown_hang.txt"),
                             "the worker that brings totalGo to 0 by its idle timer does not perform closing->stopped: "
                             "Shutdown's channel never closes")]:
@@ -207,7 +212,7 @@ def run(c, binary, labels, tier, focus):
             ok, stats, mism, merr, gerr = _replay_file(c, binary, path, tries=16 if "vanish" in path else 2)
             if ok:
                 found = True
-                c.report("%s:pool:pinned-replay:%s" % (c.pid, "vanish" if "vanish" in path else "hang"),
+                c.report("%s:pool:pinned-replay:%s" % (c.pid, "vanish" if "vanish" in path else "wrap-depth" if "wrap" in path else "hang"),
                          "OnDemandBlockTaskPool: " + what,
                          {"kind": "lockstep-replay", "file": os.path.relpath(path, VERIF), "events": open(path).read().splitlines(),
                           "how": "modelrun pool-lockstep replay <file> <report> | h lockstep   (see checks/common.py Check.lockstep)"})
